@@ -242,6 +242,12 @@ def nested_columns(df):
     return [c for c in df.columns if len(df) and isinstance(df[c].iloc[0], list)]
 
 
+def pd_freq_of(df):
+    """the bar interval of a resampled frame, as a pandas offset (difference of the first two distinct index labels)"""
+    idx = df.index.get_level_values(0).unique() if getattr(df.index, "nlevels", 1) > 1 else df.index.unique()
+    return idx[1] - idx[0]
+
+
 def probe_found(strategy):
     """what the objects handed to this backtest look like, against the pristine copies: positions already in the markets, extra
     columns, cells whose value differs, depth missing from order-book lists, price cells that differ, market cross-references"""
@@ -249,8 +255,18 @@ def probe_found(strategy):
     for mi, m in strategy.broker.markets.items():
         f["pos"].append(count_positions(m))
         pr, df = PRISTINE["frames"][mi.name], m.data
-        if len(df) != len(pr):          # resampled (interval != 1min): `.resample(…).first()` keeps the first row of every bucket
-            pr = pr.loc[pr.index.intersection(df.index)]
+        if len(df) != len(pr):
+            # resampled (interval != 1min): the reference is the pristine frame put through the market's own `_resample` on a
+            # private shallow copy of the market (uniswap aggregates per column: sum / last / first …, others take `.first()`)
+            import copy
+            ref = copy.copy(m)
+            ref._data = copy.deepcopy(pr)
+            try:
+                freq = pd_freq_of(df)
+                ref._resample(freq)
+                pr = ref._data
+            except Exception:  # noqa: BLE001
+                pr = pr.loc[pr.index.intersection(df.index)]
         f["cols"] += len([c for c in df.columns if c not in pr.columns])
         nested = nested_columns(pr)
         for c in pr.columns:
